@@ -3,6 +3,7 @@ package main
 // C04 — emitted assembly is closed; C05 — -optimize changes layout only.
 
 import (
+	"go/token"
 	"fmt"
 	"go/types"
 	"strconv"
@@ -648,6 +649,27 @@ func c05a(c *Ctx) {
 	fn := c.Fn("emitter.Emitter.renderChunks")
 	if fn == nil {
 		return
+	}
+	// the option is read through the emitter itself, where every read is counted below: the
+	// Emitter is never copied whole (a copy's fields can be read without a trace)
+	{
+		nCopy := 0
+		for _, f := range c.W.Funcs {
+			if isTestFunc(c.W, f) || len(f.Blocks) == 0 {
+				continue
+			}
+			instrs(f, func(in ssa.Instruction) {
+				u, ok := in.(*ssa.UnOp)
+				if !ok || u.Op != token.MUL {
+					return
+				}
+				if _, isStruct := u.Type().Underlying().(*types.Struct); isStruct && typeIs(u.Type(), "emitter", "Emitter") {
+					nCopy++
+					c.Bad(fmt.Sprintf("emitter-copied/%s#%d", c.W.FuncKey(f), nCopy), c.W.Pos(u.Pos()), c.W.FuncKey(f)+" copies the Emitter: its options (optimize, line markers) could then be read from the copy, outside the places where the rules follow them")
+				}
+			})
+		}
+		c.Check(nCopy == 0, "emitter-copied/none", "-", "the Emitter is only used through its pointer", "the Emitter is copied")
 	}
 	// the emitter renders the program it is given: no emitter function writes into an AST node
 	// (New pruning "dead" statements when optimising would change which labels and commands exist)
